@@ -1,7 +1,7 @@
 #!/bin/sh
 # debugging aid: show the proof state just before line N of a .v file (scratch copy; never part of the build)
 # usage: goal.sh Proofs/X.v N
-cd /verif/coq || exit 1
+cd "$(dirname "$0")/../coq" || exit 1
 f="$1"; n="$2"
 tmp=/root/scratch/goal_$$.v
 head -n $((n-1)) "$f" > $tmp
